@@ -253,6 +253,12 @@ _INNER = {"Call": (1, 2), "Index": (1,), "IndexList": (1,), "Slice": (1, 2, 3), 
           "CaseBlock": None, "CommBlock": None, "TypeAssert": (1,), "FieldList": None}
 
 
+_PREFIX_TAGS = {"Star", "TypePointer", "Ellipsis", "Range", "Go", "Defer", "Return", "If", "For", "RangeStmt", "Switch",
+                "TypeSwitch", "Select", "Branch", "TypeInterface", "Paren", "TypeMap", "TypeArray", "TypeSlice", "TypeStruct",
+                "LiteralValue", "Block", "CaseBlock", "CommBlock", "CaseClause", "CommClause", "DeclVar", "DeclConst", "DeclType"}
+_INFIX_TAGS = {"Assign", "Send", "Selector", "Label", "IncDec", "Call", "Index", "IndexList", "Slice", "TypeAssert"}
+
+
 def _attr(n, prefix):
     for a in n.attrs:
         if a.startswith(prefix):
@@ -326,6 +332,7 @@ def positions_ok(src, tree):
     stack = [tree]
     last_leaf = -1
     order = []
+    named = {}
     # pre-order traversal = source order of leaves (children are listed in source order)
     def walk(n):
         todo = [n]
@@ -361,6 +368,36 @@ def positions_ok(src, tree):
                 for q in _all_positions(k, []):
                     if not a < q < b:
                         return "%s: position @%d of a child is not strictly between @%d and @%d" % (n.tag, q, a, b)
+        # order of a node's own positions relative to its children
+        if ps and n.tag != "Empty":
+            kidpos = [_all_positions(k, []) for k in n.kids]
+            allk = [q for kp in kidpos for q in kp]
+            t = n.tag
+            unary_op = t == "Operation" and len(n.kids) > 1 and n.kids[1].tag == "None"
+            if t in _PREFIX_TAGS or unary_op or (t == "FuncType"):
+                if any(q <= ps[0] for q in allk):
+                    return "%s @%d does not precede all positions of its children" % (t, ps[0])
+            elif t in _INFIX_TAGS or (t == "Operation" and not unary_op):
+                if kidpos and any(q >= ps[0] for q in kidpos[0]):
+                    return "%s @%d does not follow its first child" % (t, ps[0])
+                if any(q <= ps[0] for kp in kidpos[1:] for q in kp):
+                    return "%s @%d does not precede its later children" % (t, ps[0])
+            elif t == "TypeChannel":
+                d = _attr(n, "d:")
+                if any(q <= ps[0] for q in allk):
+                    return "TypeChannel: element type not after chan @%d" % ps[0]
+                if d == "2" and not ps[1] < ps[0]:
+                    return "TypeChannel <-chan: arrow @%d not before chan @%d" % (ps[1], ps[0])
+                if d == "1" and (not ps[0] < ps[1] or any(q <= ps[1] for q in allk)):
+                    return "TypeChannel chan<-: arrow @%d not between chan @%d and the element type" % (ps[1], ps[0])
+        # no two nodes name the same lexeme
+        if n.tag != "FieldList":
+            exp2 = expected_lexemes(n)
+            for p_, e_ in zip(ps, exp2 if len(exp2) == len(ps) else []):
+                if e_ is not None and n.tag not in ("Ident", "BasicLit", "StringLit"):
+                    if p_ in named:
+                        return "%s and %s both name the lexeme at @%d" % (named[p_], n.tag, p_)
+                    named[p_] = n.tag
         if n.tag in ("Ident", "BasicLit", "StringLit") and ps:
             if ps[0] <= last_leaf:
                 return "leaf %s @%d is not after the previous leaf @%d (siblings out of source order)" % (n.tag, ps[0], last_leaf)
@@ -1058,3 +1095,21 @@ def docs_ok(c, line):
                 any(c.src.find(t) >= 0 and c.src.count("\n", 0, c.src.find(t) + len(t)) == 0 for t in d1 + d2)
             return "%sdocs of %s #%d: tree %r, expected %r" % ("KF-21: " if on_line1 else "", t1, i, d1, d2)
     return None
+
+
+POS_SNIPPETS = [
+    "var c = (<-chan <-chan int)(nil)", "var c <-chan <-chan int", "var d = (chan<- chan<- <-chan int)(x)", "var e = make(chan (<-chan int))",
+    "var f = <-(<-chan int)(c)", "var g = (<-chan chan<- int)(nil)", "var s = x[1:2:3].f(a...)[i].(T)", "var m = map[K][]*[3]T{k: {&v}}",
+    "var h = func(a, b int, c ...*T) (x, y <-chan int) { return }", "type T[P any, Q interface{ ~int | m() }] struct { a, b P; *Q; f func(P) Q `t` }",
+    "func (r *R[K, V]) m() { L: for i, v := range x { if y := <-c; y { continue L } else { c <- v } } }",
+    "func f() { switch x := y.(type) { case int, *T: x++; default: return }; select { case v, ok := <-c: _ = ok; case c <- 1: } }",
+    "func g() { go func() {}(); defer h(x, y...); a, b = b, a; a <<= 2; *p = &q; goto L; L: }",
+]
+
+
+def position_directed_cases():
+    out = []
+    for sn in POS_SNIPPETS:
+        for pre in ("package p\n", "package 日本語\n// é日本語 \U0001F600\nvar x = \"é日本\" /* \U0001F600 */\n\t", "package p\r\n\r\n\t"):
+            out.append(Case(pre + sn + "\n", "F-pos-directed"))
+    return out
